@@ -595,18 +595,21 @@ pub fn liquidate_reply(
         );
     }
 
-    msgs.append(
-        &mut withdraw(
-            deps.as_ref(),
-            env.clone(),
-            &mut state,
-            &liquidator,
-            config.eligible_collateral,
-            liquidation_fee,
-            pre_paid_shortfall,
-        )
-        .unwrap(),
-    );
+    // a dust position's fee can round down to nothing, and a zero-amount transfer is rejected by the token
+    if !liquidation_fee.is_zero() {
+        msgs.append(
+            &mut withdraw(
+                deps.as_ref(),
+                env.clone(),
+                &mut state,
+                &liquidator,
+                config.eligible_collateral,
+                liquidation_fee,
+                pre_paid_shortfall,
+            )
+            .unwrap(),
+        );
+    }
 
     store_state(deps.storage, &state)?;
 
